@@ -42,6 +42,19 @@ def val(rng, src, family):
     return {"x": x, "y": y, "u": False}
 
 
+def overflow_scenario(rng, family, idx, mode):
+    """A callback that never returns, a callback queue of one slot, more installs than fit, then an error report and one more
+    blocking report: the queue overflows (documented: events are dropped), the monitor must keep installing and answering."""
+    vals = [{"x": 11 + i % 3, "y": 14 + i % 2, "u": False} for i in range(6)]
+    r1 = [{"op": "val", "v": v} for v in vals[:rng.randint(3, 5)]] + [{"op": "err"}, {"op": "block", "v": vals[5]}]
+    if rng.random() < 0.5:
+        r1.append({"op": rng.choice(["err", "val"]), "v": vals[0]})
+    return {"id": "%s-%s-o%d" % (family, mode[0], idx), "mode": mode, "seed": rng.randrange(1 << 30), "onnew": rng.random() < 0.5,
+            "onerr": rng.random() < 0.5, "cbcap": 1, "def": {"x": 1, "y": 2}, "skip": False, "delay": False, "suppress": False,
+            "oracle": True, "maxsteps": 600, "pcancel": 0.0, "cancelok": [], "init": [{"x": 11, "y": 0, "u": False}],
+            "procs": {"r1": r1, "c1": [{"op": "reg", "tok": "last", "block": True}, {"op": "view"}, {"op": "view"}]}}
+
+
 def gen_scenario(rng, family, idx, mode):
     nsrc = rng.choice([1, 2, 2]) if family != "C06" else rng.choice([1, 1, 2])
     sc = {"id": "%s-%s-%d" % (family, mode[0], idx), "mode": mode, "seed": rng.randrange(1 << 30),
@@ -400,6 +413,8 @@ def run_check(pid, tier, replay=None):
         scenarios = [mc.scenario_from_behaviour(b, consts, "%s-p-%d" % (pid, i)) for i, b in enumerate(behaviours)]
         # 3. seeded random programs and schedules, and free-running stress
         scenarios += [gen_scenario(rng, pid, i, "random") for i in range(n_gated)]
+        if pid in ("C08", "C06"):
+            scenarios += [overflow_scenario(rng, pid, i, "random") for i in range(12 if quick else 200)]
         free = [gen_scenario(rng, pid, i, "free") for i in range(n_free)]
         for s in free:
             s["oracle"] = False
